@@ -27,7 +27,7 @@ TRUSTED = [
 ASSUMPTIONS = [
     'operations of the overridden interface only (__getitem__ __setitem__ __contains__ __len__ __iter__); the inherited dict methods are known finding C15-inherited-dict',
     'capacity is a non-negative int and is not changed after construction',
-    'every modification of a file changes its mtime (logical clock); no modification happens during a load',
+    'every modification of a file changes its mtime: to the next value of a logical clock (W, T) or to any value, older ones included, that differs from the file\'s current mtime and from every mtime the loader remembers for that file (WA; a different content under a remembered mtime is the inherent limit of reloading by modification time, theorem mtime_reuse_serves_stale); a modification during a load is a replacement (new file renamed over the name) of the file the load opens, landing before or right after the open() of directory() (history op LR); in-place rewrites of a file that is being read are not covered',
 ]
 
 NKEYS = 3
@@ -245,9 +245,61 @@ def inherited_case(case):
 # --------------------------------------------------------------------------
 # loader histories
 
+def judge_load(bad, i, cfg, strict, run, spec, exp, kind, val, before, after):
+    """the clauses of the property for one load: expectation `exp` of the reference against what
+    the real loader did; returns a failure or None (may mark a touched key in the reference)"""
+    if run.lock_depth() != 0:
+        return bad(i, 'the lock is released on every exit', 0, run.lock_depth())
+    if not run.path_intact():
+        return bad(i, 'a load does not change the configured search path', len(cfg['path']),
+                   len(run.loader.search_path))
+    if after['len'] > cfg['cap']:
+        return bad(i, 'at most max_cache_size templates are cached', cfg['cap'], after['len'])
+    if exp['kind'] == 'ok':
+        if kind != 'ok':
+            return bad(i, 'load succeeds', 'a template with content v%d' % exp['content'], 'raises ' + val)
+        d = run.describe(val)
+        if d['content'] != exp['content'] or d['loc'] != tuple(exp['loc']):
+            return bad(i, 'returned template is parsed from the %s' % (
+                'current content of the file found first on the search path' if strict else
+                'current content of the file it came from / first on the path when parsed'),
+                {'content': exp['content'], 'file': list(exp['loc'])},
+                {'content': d['content'], 'file': list(d['loc'] or [])})
+        if d['obj'] != exp['serve'][1]:
+            return bad(i, 'object identity (%s)' % ('the same object while nothing changed'
+                       if exp['serve'][0] == 'cached' else 'a newly parsed template'),
+                       'template #%d' % exp['serve'][1], 'template #%d' % d['obj'])
+        if [(tuple(k), o) for k, o in after['order']] != exp['cache']:
+            return bad(i, 'cache contents, most recently used first (least recently used evicted first)',
+                       [[list(k), o] for k, o in exp['cache']], [[list(k or ()), o] for k, o in after['order']])
+    else:
+        if kind != 'err' or val != exp['err']:
+            return bad(i, 'load fails', exp['err'], val if kind == 'err' else 'returns a template')
+        if after['mapping'] != before['mapping'] or after['uptodate'] != before['uptodate']:
+            return bad(i, 'a failed load leaves the cache and _uptodate as they were',
+                       sorted(before['mapping']), sorted(after['mapping']))
+        if after['order'] != before['order']:
+            key = exp['key']
+            moved = [x for x in before['order'] if x[0] == key] + [x for x in before['order'] if x[0] != key]
+            if exp['touched'] and after['order'] == moved:
+                spec.touch_failed(key)      # the lookup counted as a use; nothing else changed
+            else:
+                return bad(i, 'a failed load leaves the cache order as it was (or only marks the requested key as used)',
+                           [[list(k), o] for k, o in before['order']], [[list(k or ()), o] for k, o in after['order']])
+    if len(run.inst_log) != exp['instantiated']:
+        return bad(i, 'number of templates parsed so far (a parse happens exactly when the template is not served from the cache)',
+                   exp['instantiated'], len(run.inst_log))
+    if cfg['callback'] and (len(run.cb_log) != len(run.inst_log) or
+                            any(a is not b for a, b in zip(run.cb_log, run.inst_log))):
+        return bad(i, 'the callback runs exactly once per parse, with the parsed template',
+                   'callbacks = parsed templates (%d)' % len(run.inst_log), '%d callbacks' % len(run.cb_log))
+    return None
+
+
 def run_history(cfg, ops, strict, root, want_answers=True):
     """the property oracle on the real loader for one history (+ what the real loader did, for
     the correspondence). Returns (failure-or-None, answers, stats)"""
+    import copy
     case = {'kind': 'hist', 'cfg': cfg, 'ops': ops, 'strict': strict}
     GL.validate(cfg, ops)
     run = GL.RealRun(cfg, root)
@@ -262,76 +314,65 @@ def run_history(cfg, ops, strict, root, want_answers=True):
                 'expected': expected, 'observed': observed}
     try:
         for i, op in enumerate(ops):
-            if op[0] != 'L':
+            if op[0] not in ('L', 'LR'):
+                if op[0] == 'WA':
+                    loc = (op[1], op[2], op[3])
+                    if loc in spec.fs and op[6] < spec.fs[loc][2]:
+                        stats['mtime-backwards'] += 1
+                        if loc in [e.loc for e in spec.cache.values()]:
+                            stats['mtime-backwards:file of a cached template'] += 1
+                    else:
+                        stats['mtime-explicit-not-backwards'] += 1
                 spec.fs_op(op)
                 run.fs_op(op)
                 answers.append('U')
                 continue
             r = op[1]
-            before = run.snapshot()
-            exp = spec.load(r)
-            if exp is None:
+            key = GL.resolve(cfg, r)
+            if key is None:
                 answers.append('unmodelled')
                 continue
-            if exp['key'] not in seen:
-                seen.append(exp['key'])
-            kind, val = run.load(r)
-            after = run.snapshot()
-            if want_answers:
-                answers.append(GL.real_answer(run, kind, val, seen))
+            if key not in seen:
+                seen.append(key)
+            before = run.snapshot()
+            if op[0] == 'L':
+                exp = spec.load(r)
+                kind, val = run.load(r)
+                after = run.snapshot()
+                if want_answers:
+                    answers.append(GL.real_answer(run, kind, val, seen))
+                if not fail:
+                    fail = judge_load(bad, i, cfg, strict, run, spec, exp, kind, val, before, after)
+            else:
+                # a load during which the file it opens is replaced: the property holds if what
+                # happened is the load and the write in one of the two orders
+                kind, val, fired = run.load_race(r, op[2], op[3], op[4])
+                after = run.snapshot()
+                if want_answers:
+                    answers.append(GL.real_answer(run, kind, val, seen, fired=fired))
+                stats['race:' + ('no file opened' if fired is None else 'before open' if op[2] else 'after open')] += 1
+                first_fail = None
+                for first in (True, False):
+                    cand = copy.deepcopy(spec)
+                    exp, _ = cand.load_race(r, op[2], op[3], op[4], fired=fired, first=first)
+                    f = judge_load(bad, i, cfg, strict, run, cand, exp, kind, val, before, after)
+                    if f is None:
+                        first_fail = None
+                        break
+                    first_fail = first_fail or f
+                    if fired is None:
+                        break
+                spec = cand
+                if first_fail is not None:
+                    # neither order explains what happened
+                    fail = fail or first_fail
+                elif not first:
+                    stats['race:the other order'] += 1
             stats['load:' + (exp['kind'] if exp['kind'] == 'ok' else exp['err'])] += 1
             if exp['kind'] == 'ok':
                 stats['serve:' + exp['serve'][0]] += 1
-            if fail:
-                continue
-            # --- the clauses of the property
-            if run.lock_depth() != 0:
-                fail = bad(i, 'the lock is released on every exit', 0, run.lock_depth())
-            elif not run.path_intact():
-                fail = bad(i, 'a load does not change the configured search path', len(cfg['path']),
-                           len(run.loader.search_path))
-            elif after['len'] > cfg['cap']:
-                fail = bad(i, 'at most max_cache_size templates are cached', cfg['cap'], after['len'])
-            elif exp['kind'] == 'ok':
-                if kind != 'ok':
-                    fail = bad(i, 'load succeeds', 'a template with content v%d' % exp['content'], 'raises ' + val)
-                else:
-                    d = run.describe(val)
-                    if d['content'] != exp['content'] or d['loc'] != tuple(exp['loc']):
-                        fail = bad(i, 'returned template is parsed from the %s' % (
-                            'current content of the file found first on the search path' if strict else
-                            'current content of the file it came from / first on the path when parsed'),
-                            {'content': exp['content'], 'file': list(exp['loc'])},
-                            {'content': d['content'], 'file': list(d['loc'] or [])})
-                    elif d['obj'] != exp['serve'][1]:
-                        fail = bad(i, 'object identity (%s)' % ('the same object while nothing changed'
-                                   if exp['serve'][0] == 'cached' else 'a newly parsed template'),
-                                   'template #%d' % exp['serve'][1], 'template #%d' % d['obj'])
-                    elif [(tuple(k), o) for k, o in after['order']] != exp['cache']:
-                        fail = bad(i, 'cache contents, most recently used first (least recently used evicted first)',
-                                   [[list(k), o] for k, o in exp['cache']], [[list(k or ()), o] for k, o in after['order']])
-            else:
-                if kind != 'err' or val != exp['err']:
-                    fail = bad(i, 'load fails', exp['err'], val if kind == 'err' else 'returns a template')
-                elif after['mapping'] != before['mapping'] or after['uptodate'] != before['uptodate']:
-                    fail = bad(i, 'a failed load leaves the cache and _uptodate as they were',
-                               sorted(before['mapping']), sorted(after['mapping']))
-                elif after['order'] != before['order']:
-                    key = exp['key']
-                    moved = [x for x in before['order'] if x[0] == key] + [x for x in before['order'] if x[0] != key]
-                    if exp['touched'] and after['order'] == moved:
-                        spec.touch_failed(key)      # the lookup counted as a use; nothing else changed
-                        stats['failed-load-touched'] += 1
-                    else:
-                        fail = bad(i, 'a failed load leaves the cache order as it was (or only marks the requested key as used)',
-                                   [[list(k), o] for k, o in before['order']], [[list(k or ()), o] for k, o in after['order']])
-            if not fail and len(run.inst_log) != exp['instantiated']:
-                fail = bad(i, 'number of templates parsed so far (a parse happens exactly when the template is not served from the cache)',
-                           exp['instantiated'], len(run.inst_log))
-            elif not fail and cfg['callback'] and (len(run.cb_log) != len(run.inst_log) or
-                                      any(a is not b for a, b in zip(run.cb_log, run.inst_log))):
-                fail = bad(i, 'the callback runs exactly once per parse, with the parsed template',
-                           'callbacks = parsed templates (%d)' % len(run.inst_log), '%d callbacks' % len(run.cb_log))
+            elif exp.get('touched') and before['order'] != after['order']:
+                stats['failed-load-touched'] += 1
     finally:
         run.close()
     return fail, answers, stats
@@ -346,6 +387,60 @@ def hist_compare(batch, res, stream):
         if ans != exp:
             res.disagreements.append({'stream': stream, 'case': {'kind': 'hist', 'cfg': cfg, 'ops': ops, 'strict': strict},
                                       'model': ans[:1500], 'real': exp[:1500]})
+
+
+def spec_compare(batch, res, stream):
+    """the specification side (`firstOnPathF`, search path walk with load-function faults) against
+    what the real loader did: per plain load, `cached` / nothing / raised / nopath / the file found
+    first (location, content, whether it parses)"""
+    lines = [GL.wire_history(cfg, ops).replace('C15 hist ', 'C15 firstspec ', 1) for cfg, ops, _, _ in batch]
+    answers = proto.run_lines(lines)
+    for (cfg, ops, strict, real), ans in zip(batch, answers):
+        res.streams[stream] = res.streams.get(stream, 0) + 1
+        try:
+            model = proto.dec(ans)
+        except Exception:  # noqa
+            model = None
+        ok = isinstance(model, list) and len(model) == len(ops)
+        nobj = 0
+        for op, a, m in zip(ops, real, model if ok else []):
+            if not ok:
+                break
+            if op[0] != 'L' or a == 'unmodelled':
+                if op[0] == 'LR' and a != 'unmodelled' and a[0][0] == 'ok':
+                    nobj = max(nobj, a[0][1][0] + 1)
+                continue
+            r0 = a[0]
+            m = [str(x) for x in m] if isinstance(m, list) else str(m)
+            if r0[0] == 'ok':
+                t = r0[1]
+                if t[0] < nobj:
+                    want = 'cached'
+                else:
+                    want = ['file', str(t[1]), str(t[2]), str(t[3]), str(t[4]), 'F']
+                    nobj = t[0] + 1
+                res.count('firstspec:' + ('cached' if want == 'cached' else 'file'))
+                if m != want:
+                    ok = False
+            else:
+                err = str(r0[1])
+                res.count('firstspec:' + err)
+                if err == 'TemplateNotFound':
+                    ok = m == 'nothing'
+                elif err == 'LoadFuncError':
+                    ok = m == 'raised'
+                elif err == 'TemplateError':
+                    ok = m == 'nopath'
+                elif err == 'TemplateSyntaxError':
+                    ok = isinstance(m, list) and m[0] == 'file' and m[5] == 'T'
+                elif err == 'CallbackError':
+                    ok = isinstance(m, list) and m[0] == 'file' and m[5] == 'F'
+                    nobj += 1
+                else:
+                    ok = False
+        if not ok:
+            res.disagreements.append({'stream': stream, 'case': {'kind': 'hist', 'cfg': cfg, 'ops': ops, 'strict': strict},
+                                      'model': ans[:1500], 'real': proto.enc([proto.Atom(a) if isinstance(a, str) else a for a in real])[:1500]})
 
 
 def hist_shard(arg):
@@ -376,6 +471,108 @@ def hist_shard(arg):
         if j < 1:
             res.samples.append({'kind': 'hist', 'cfg': cfg, 'ops': ops[:8]})
     hist_compare(batch, res, 'loader-histories')
+    spec_compare(batch, res, 'first-on-path-spec')
+    return res
+
+
+def prefixed_case(case, root):
+    """`prefixed()` load functions on the real loader, oracle only: search path items are
+    directory names `['D', d]` and `['P', d]` = prefixed(sub=<dir d>) (serves `sub/<name>` from
+    `<dir d>/<name>`, has nothing else); after the writes of the case every load must return the
+    template of the file found first on the search path, or raise TemplateNotFound when no item
+    has it — in particular an item that does not have the name is passed over, whatever it is"""
+    from genshi.template.loader import TemplateLoader, prefixed
+    from genshi.template import MarkupTemplate
+    import shutil
+    shutil.rmtree(root, ignore_errors=True)
+    dirs = []
+    for d in range(3):
+        p = os.path.join(root, 'd%d' % d)
+        os.makedirs(p)
+        dirs.append(p)
+    try:
+        path = [dirs[e[1]] if e[0] == 'D' else prefixed(sub=dirs[e[1]]) for e in case['path']]
+        loader = TemplateLoader(path, auto_reload=True, max_cache_size=case.get('cap', 5))
+        fs = {}
+        clock = 1
+        for i, op in enumerate(case['ops']):
+            if op[0] == 'W':
+                d, sub, base, content = op[1:5]
+                p = os.path.join(dirs[d], 'sub', 't%d.html' % base) if sub else os.path.join(dirs[d], 't%d.html' % base)
+                os.makedirs(os.path.dirname(p), exist_ok=True)
+                with open(p, 'wb') as f:
+                    f.write(GL.content_bytes(content, False))
+                os.utime(p, (GL.T0 + clock, GL.T0 + clock))
+                clock += 1
+                fs[(d, sub, base)] = content
+                continue
+            sub, base = op[1], op[2]
+            exp = None
+            for e in case['path']:
+                if e[0] == 'D':
+                    loc = (e[1], sub, base)
+                elif sub:
+                    loc = (e[1], False, base)       # the prefix is stripped
+                else:
+                    continue                        # prefixed() does not have this name
+                if loc in fs:
+                    exp = fs[loc]
+                    break
+            try:
+                t = loader.load(GL.fname(sub, base))
+                text = t.generate().render(encoding=None)
+                m = __import__('re').search(r'v(\d+)', text)
+                got = int(m.group(1)) if m else text
+            except Exception as ex:  # noqa
+                got = type(ex).__name__
+            want = 'TemplateNotFound' if exp is None else exp
+            if got != want:
+                return {'case': case, 'what': 'operation %d %s: a load returns the template of the file found first on the search path (items: directories and prefixed() load functions)' % (i, json.dumps(op)),
+                        'expected': want, 'observed': got}
+    finally:
+        shutil.rmtree(root, ignore_errors=True)
+    return None
+
+
+def prefixed_shard(arg):
+    seed, n = arg
+    rng = random.Random('%s/C15-prefixed' % seed)
+    res = Result()
+    root = os.path.join(proto.ROOT, '.build', 'c15-prefixed-%d' % os.getpid())
+    fixed = [{'kind': 'prefixed', 'path': [['P', 1], ['D', 0]], 'ops': [['W', 0, False, 0, 100], ['L', False, 0]]}]
+    for j in range(n):
+        if j < len(fixed):
+            case = fixed[j]
+        else:
+            path = [[rng.choice('DP'), rng.randrange(3)] for _ in range(rng.randrange(1, 4))]
+            ops = []
+            c = 100
+            locs = []
+            # first the files, then loads and rewrites of existing files: no file is *created* after
+            # a load, so the history stays outside the class of finding C15-shadow
+            for _ in range(rng.randrange(1, 6)):
+                c += 1
+                loc = (rng.randrange(3), rng.random() < 0.3, rng.randrange(2))
+                locs.append(loc)
+                ops.append(['W', loc[0], loc[1], loc[2], c])
+            for _ in range(rng.randrange(2, 9)):
+                if rng.random() < 0.3:
+                    c += 1
+                    loc = rng.choice(locs)
+                    ops.append(['W', loc[0], loc[1], loc[2], c])
+                else:
+                    ops.append(['L', rng.random() < 0.5, rng.randrange(2)])
+            case = {'kind': 'prefixed', 'path': path, 'ops': ops, 'cap': rng.choice([1, 2, 5])}
+        res.evaluations += 1
+        res.count('prefixed:histories')
+        if any(e[0] == 'P' for e in case['path']) and any(e[0] == 'D' for e in case['path']):
+            res.count('prefixed:mixed with directories')
+        f = prefixed_case(case, root)
+        if f:
+            res.failures.append(f)
+            if len(res.failures) >= 3:
+                break
+    res.streams['prefixed-oracle'] = res.evaluations
     return res
 
 
@@ -398,6 +595,10 @@ def corpus_shard(_):
                 res.failures.append(fail)
             else:
                 lru_batch.append((case['cap'], case.get('nkeys', NKEYS), case['ops'], trace))
+        elif case['kind'] == 'prefixed':
+            fail = prefixed_case(case, root + '-p')
+            if fail:
+                res.failures.append(fail)
         else:
             fail, answers, stats = run_history(case['cfg'], case['ops'], case.get('strict', True), root)
             if fail:
@@ -451,6 +652,8 @@ def run(ctx):
     nh = ctx.n(190, 1800)
     for r in pmap('harness.props.c15', 'hist_shard', [(ctx.seed, i, nh, 25) for i in range(16)]):
         res.merge(r)
+    for r in pmap('harness.props.c15', 'prefixed_shard', [(ctx.seed, ctx.n(150, 1500))]):
+        res.merge(r)
     t3 = time.time()
     res.notes.append('wall: lru-exhaustive %.1fs, lru-random %.1fs, loader histories %.1fs' % (t1 - t0, t2 - t1, t3 - t2))
     res.rule = ('container: every sequence over get/set x 3 keys of length <= %d (capacity 2; min(%d-1, 7) for capacities 0, 1 and 3; sequences starting with a miss on the empty cache are represented by their tail) followed by all reads, '
@@ -479,6 +682,14 @@ def replay(ctx, case):
         return lru_oracle(case['cap'], case['ops'], case.get('nkeys') or max([NKEYS] + [op[1] + 1 for op in case['ops'] if len(op) > 1]))[0]
     if kind == 'lru-inherited':
         return inherited_case(case)
+    if kind == 'prefixed':
+        for e in case['path']:
+            if not (isinstance(e, list) and len(e) == 2 and e[0] in ('D', 'P') and e[1] in range(3)):
+                raise ValueError('not a search path')
+        for op in case['ops']:
+            if not (isinstance(op, list) and ((op[0] == 'W' and len(op) == 5) or (op[0] == 'L' and len(op) == 3))):
+                raise ValueError('not a history')
+        return prefixed_case(case, os.path.join(proto.ROOT, '.build', 'c15-replay-prefixed-%d' % os.getpid()))
     if kind == 'hist':
         root = os.path.join(proto.ROOT, '.build', 'c15-replay-%d' % os.getpid())
         return run_history(case['cfg'], case['ops'], case.get('strict', True), root, want_answers=False)[0]
